@@ -5,7 +5,8 @@ from checks.e2e_common import run_e2e_property
 EXPLANATION = (
     "P tier (unbounded): on the real SignalAnalyzer._allocate_factorio_virtual_signal the result is pool[cursor] with the "
     "cursor advanced by one (hence pairwise distinct results until the pool is exhausted), wrap-around happens only after "
-    "the warning flag is set, and the result is recorded as allocated. B tier (bounded): programs mixing untyped values with explicitly typed ones (arithmetic, bundles, entity conditions, "
+    "the warning flag is set, and the result is recorded as allocated; MemoryLowerer._coerce_to_signal_type puts a written value on the "
+    "cell's signal by projection / constant and never re-labels an implicit type in the signal registry (frame). B tier (bounded): programs mixing untyped values with explicitly typed ones (arithmetic, bundles, entity conditions, "
     "more untyped values than letter signals) are compiled by the real pipeline; outputs are compared with S3 for all "
     "inputs (an untyped value's signal is read from the label the compiler gave it, so a collision with an explicit "
     "signal on the same wire shows up as a wrong value), and every compiler-chosen signal is checked against the "
@@ -13,8 +14,19 @@ EXPLANATION = (
 )
 
 
+def _reserve_box(cr):
+    from bounded import pipeline
+    from bounded.contract_enum import run_contract_enum
+    from contracts import c13
+    pipeline.ensure_repo()
+    args = c13.reserve_arg_sets()
+    cr.bounded_check(run_contract_enum, "reserve-explicit-names-box", c13.reserve, args,
+                     f"{len(args)} IR nodes (one per kind / reference position: constant bundles, condition rows, merges, latch conditions, "
+                     "entity properties, inlined bundle conditions): every explicit signal name leaves the allocation pool (contract evaluated on the real function)")
+
+
 def run(tier):
     progs = gen.c13_scope(tier)
     return run_e2e_property("C13", tier, EXPLANATION, "DESIGN §4 C13",
                             [("e2e-implicit-signals", progs, "untyped values next to explicit signals")],
-                            contract_modules=["contracts.c13"])
+                            contract_modules=["contracts.c13", "contracts.c03"], extra=_reserve_box)
